@@ -4,11 +4,14 @@ Instances: N locations on integer-distance point templates (exact in float32), q
 (`to_choose`, a PER-ROW tensor in the generator format), hand-made TensorDicts in the
 generator format (locs, orig_distances, distances, chosen, to_choose).
 
-Two adapters, because a finished FLP row can only be stepped N-K more times (its mask is
-"not chosen yet", nothing else) and a batch-mate (same N) can be at most N-K steps slower:
-  FLP      K <= N-2, pad_steps = 1 : finished rows are stepped on (mixed quotas in one batch)
-  FLPFull  K in {N-1, N}, pad_steps = 0 : boundary quotas; no post-finish stepping in the
-           single-episode stage (the batch stage still mixes K = N-1 with K = N rows).
+One adapter for all quotas 1..N, pad_steps = 2.  Since the fix "FLP/MCP instances that reached
+their quota ignore further (padding) selections" a finished row accepts any action and keeps its
+selection, so it can be stepped on for as long as slower batch-mates need.
+(FORMER behaviour: action_mask = ~chosen also for finished rows; every padding step added a
+facility and changed the reward of the finished row whenever quotas differed inside a batch.
+This is what M_PadC04 and the batch stage (solo vs mixed-quota batches) keep watching: rows
+with DIFFERENT quotas share every batch.  There used to be a second adapter FLPFull for
+K >= N-1, because such rows ran out of un-chosen locations while being padded.)
 """
 import torch
 from tensordict import TensorDict
@@ -30,6 +33,8 @@ LINES = {
 
 def exact_int(x, scale):
     v = float(x) * scale
+    if v != v or abs(v) > 2 ** 30:      # nan / inf / out of TLC's integer range
+        return BAD
     iv = int(round(v))
     return iv if abs(v - iv) < 1e-4 else BAD
 
@@ -52,20 +57,22 @@ class FLP(Adapter):
     name = "flp"
     module = "FLP"
     has_checker = False
-    pad_steps = 1
+    pad_steps = 2
     properties = ("C02", "C03", "C04", "C05", "C08")
     monitor_props = {"Step": "C08", "Final": "C08"}
-    sizes = {"quick": (4, 5), "thorough": (4, 5, 6, 7)}
+    sizes = {"quick": (3, 4, 5), "thorough": (3, 4, 5, 6, 7)}
 
-    def quotas(self, n):
-        return range(1, n - 1)          # K <= N-2 (see module docstring)
+    def quotas(self, n, tier):
+        if tier == "quick" and n >= 5:
+            return (1, 2, 3)
+        return range(1, min(n, 5) + 1)          # every quota up to K = N (N = 7: K <= 5)
 
     def family(self, tier, seed=0):
         insts = []
         for n in self.sizes[tier]:
             for (pts, g) in layouts(n, tier):
                 D = embed.dist_matrix(pts)
-                for k in self.quotas(n):
+                for k in self.quotas(n, tier):
                     if k < 1:
                         continue
                     insts.append({"N": n, "K": k, "D": D, "dist0": DIST0 * g,
@@ -73,7 +80,12 @@ class FLP(Adapter):
         return with_ids(insts)
 
     def group_key(self, inst):
-        return (inst["N"],)             # rows with DIFFERENT quotas share one batch
+        # rows with DIFFERENT quotas share one batch.  K = N rows get their own batch: they are
+        # the slowest rows anyway (nobody is padded because of them that is not already padded
+        # as long in the other batch), and under the FORMER code a K = N row stepped once more had
+        # no un-chosen location left and crashed _step (.view) -- a regression must show up as a
+        # C04 verdict of the mixed-quota batches, not as a crash of the harness
+        return (inst["N"], inst["K"] == inst["N"])
 
     def actions(self, inst):
         return list(range(inst["N"]))
@@ -107,18 +119,15 @@ class FLP(Adapter):
                            "to_choose": torch.tensor([i["K"] for i in insts], dtype=torch.long)},
                           batch_size=[len(insts)])
 
+    def scale_reward(self, r, scale):
+        # a selection that ends up empty gives reward -inf: keep it a (wrong) integer so that the
+        # C03 monitor reports it instead of the harness overflowing
+        if r != r or abs(r) == float("inf"):
+            return BAD
+        return Adapter.scale_reward(self, r, scale)
+
     def project(self, td, r, inst):
         return {"i": int(td["i"].reshape(td.shape[0], -1)[r, 0]),
                 "done": bool(driver.done_of(td)[r]),
                 "chosen": [int(x) for x in td["chosen"][r].nonzero().flatten().tolist()],
                 "dist": [exact_int(x, inst["grid"]) for x in td["distances"][r].tolist()]}
-
-
-class FLPFull(FLP):
-    """boundary quotas K = N-1 and K = N (everything, or all but one, is chosen)"""
-    tag = "flp_full"
-    pad_steps = 0
-    sizes = {"quick": (3, 4), "thorough": (3, 4, 5, 6)}
-
-    def quotas(self, n):
-        return (n - 1, n)
